@@ -3,7 +3,9 @@
 namespace OP2Utility
 {
 	// CellTypes returned and set by the GameMap class
-	enum class CellType
+	// Note: The underlying type must be unsigned. The values are stored in a 5 bit wide bit field (see Tile),
+	// which for a signed type would read values 16 through 31 back as negative numbers
+	enum class CellType : unsigned int
 	{
 		FastPassible1 = 0,	// Rock vegetation
 		Impassible2,		// Meteor craters, cracks/crevases
